@@ -14,7 +14,7 @@ Not decided: that a standard decoder accepts the bytes (pallas' encoder, a depen
 """
 import re
 
-from .. import mir, e6_hash as e6
+from .. import mir, roles, e6_hash as e6
 from ..common import CallGraph, table, call_matches, is_derive, site_in_derive, with_closures
 from ..engine import Result, ok, finding, assumption, where
 from ..facts import BrokenCheck
@@ -251,9 +251,9 @@ def s_present(F, res):
 
 def s_sets(F, res):
     for fname, adt_suffix in (("compile_tx_body", "TransactionBody"), ("compile_witness_set", "WitnessSet")):
-        f = F.fn(CO + fname)
+        f = F.fns[roles.builder_of(F, "tx3_cardano", "::" + adt_suffix)]
         du = mir.DefUse(f)
-        aggs = [(bi, s) for bi, si, s in mir.stmts(f) if s["rv"]["k"] == "agg" and s["rv"].get("adt", "").endswith(adt_suffix)]
+        aggs = [(bi, s) for bi, si, s in mir.stmts(f) if s["rv"]["k"] == "agg" and s["rv"].get("adt", "").endswith("::" + adt_suffix)]
         if not aggs:
             raise BrokenCheck("%s no longer builds a %s" % (fname, adt_suffix))
         rv = aggs[0][1]["rv"]
@@ -291,11 +291,11 @@ def s_sets(F, res):
                 inner = [y for x in o if x.kind == "agg" for y in mir.provenance(f, du, x.rv["ops"][0])]
                 if any(y.kind == "arg" and y.local == 2 for y in inner):
                     # compile_tx_body(tx, network): the caller passes pparams.network
-                    e = F.fn(CO + "entry_point")
+                    e = F.fns[roles.builder_of(F, "tx3_cardano", "::Tx")]
                     du2 = mir.DefUse(e)
                     okk = False
                     for bi, t in mir.calls(e):
-                        if call_matches(t, CO + "compile_tx_body"):
+                        if call_matches(t, f["path"]):
                             if any(".network" in z.proj for z in mir.provenance(e, du2, t["args"][1])):
                                 okk = True
                     if okk:
